@@ -117,10 +117,12 @@ def sparql_service_available(endpoint: str) -> bool:
 
 
 def _handle_part(part: str) -> tuple[str, float]:
-    if ";q=" not in part:
-        return part, 1.0
-    key, q = part.split(";q=", 1)
-    return key, float(q)
+    # optional whitespace is allowed around "," and ";" (RFC 7231, sections 5.3.1 and 5.3.2)
+    key, *parameters = (piece.strip(" \t") for piece in part.split(";"))
+    for parameter in parameters:
+        if parameter.startswith("q="):
+            return key, float(parameter[2:])
+    return key, 1.0
 
 
 def parse_header(header: str) -> list[str]:
